@@ -3,7 +3,8 @@
 //!
 //!   p_c05 run      stdin: one history per line, same integer encoding as coq/seqreg/Run.v:
 //!                      <case-id> npre (sig kind tag)*npre item*
-//!                    kind 0 SIG_DFL, 1 SIG_IGN, 2 user handler (plain), 3 user handler (SA_SIGINFO)
+//!                    kind 0 SIG_DFL, 1 SIG_IGN, 2 user handler (plain), 3 user handler (SA_SIGINFO),
+//!                    4 / 5 = 2 / 3 installed with SA_RESETHAND|SA_NODEFER and SIGWINCH in the mask
 //!                    item: 1 sig tag register | 2 sig tag register_sigaction | 3 sig id unregister
 //!                          4 sig unregister_signal | 5 sig raise | 6 sig report disposition
 //!                  stdout: first the `libaddr` line, then per history:  H <case-id> <ints>  with per item
@@ -107,7 +108,7 @@ fn run_history(ints: &[i64]) -> String {
             match kind {
                 0 => act.sa_sigaction = libc::SIG_DFL,
                 1 => act.sa_sigaction = libc::SIG_IGN,
-                2 => {
+                2 | 4 => {
                     USER_TAG[(sig as usize) & 127].store(tag as usize, Ordering::SeqCst);
                     act.sa_sigaction = user_plain as usize;
                 }
@@ -116,6 +117,11 @@ fn run_history(ints: &[i64]) -> String {
                     act.sa_sigaction = user_info as usize;
                     act.sa_flags = libc::SA_SIGINFO;
                 }
+            }
+            if kind >= 4 {
+                // a previous handler that asked for an unusual environment
+                act.sa_flags |= libc::SA_RESETHAND | libc::SA_NODEFER;
+                libc::sigaddset(&mut act.sa_mask, libc::SIGWINCH);
             }
             libc::sigaction(sig, &act, std::ptr::null_mut());
         }
